@@ -358,10 +358,18 @@ def validate(V, tier):
     if not os.path.exists(out):
         raise MachineryError('recording the repository tests failed: %s' %
                              p.stdout.decode()[-800:])
+    # the documentation's example programs are the second source of real loads
+    if os.path.isdir(os.path.join(REPO, 'docs', 'examples')):
+        env.pop('VERIF_TRACE_OUT', None)
+        subprocess.run([sys.executable,
+                        os.path.join(VERIF, 'harness', 'run_examples.py'),
+                        REPO], cwd=REPO, env=env, stdout=subprocess.PIPE,
+                       stderr=subprocess.STDOUT)
     with open(out) as f:
         d = json.load(f)
     recs = d['records']
     V.notes['repo_loads_recorded'] = len(recs)
+    V.notes['of_which_from_docs_examples'] = d.get('examples', {})
     V.notes['repo_loads_not_modelled'] = d['skipped']
     if not recs:
         V.notes['load_trace_validation'] = 'no load of the test suite is ' \
